@@ -27,7 +27,9 @@ OPTIONAL_CLASSES = {"CalculusMixed"}
 # classes traced with these views only (keeps the quick tier short)
 VIEWS_ONLY = {"DtypeSweep": ["eval", "adj"], "WrappedOptions": ["eval", "adj"], "NoJit": ["eval", "adj", "gram"]}
 # hand-made grids of which the quick tier takes a seeded share (the thorough tier takes them whole)
-QUICK_SHARE = {"DtypeSweep": 0.4}
+QUICK_SHARE: dict = {}
+# quick tier: these classes are taken whole but with the forward map only (+ the adjoint of a seeded third)
+VIEWS_QUICK = {"DtypeSweep": ["eval"]}
 
 # slugs of the `known:` findings of C06 that are currently recorded (set by c06.generate): grid configurations that are
 # exactly a recorded witness carry `known_id` and are left out while the finding is recorded (the corpus replays them)
@@ -473,7 +475,7 @@ def enumerate_ops(rng, thorough, per_class):
             sel = set(rng.choice(len(cfgs), size=per_class, replace=False).tolist())
             # configurations the grid marks as indispensable (e.g. mixed real/complex dtypes) are always included
             sel |= {i for i, c in enumerate(cfgs) if isinstance(c, dict) and c.get("must")}
-            if name in ("MixedDtype", "CalculusMixed", "Derived", "GenericLinearOperator", "OutsideLinop", "WrappedOptions", "NoJit"):
+            if name in ("MixedDtype", "CalculusMixed", "Derived", "GenericLinearOperator", "OutsideLinop", "WrappedOptions", "NoJit", "DtypeSweep"):
                 sel = set(range(len(cfgs)))  # small hand-made grids: always complete
             if name in QUICK_SHARE:
                 k = max(per_class, int(round(QUICK_SHARE[name] * len(cfgs))))
